@@ -589,3 +589,85 @@ func ruleRelMapTotal(c *eng.Ctx) {
 		})
 	}
 }
+
+// R7.9 [C07]
+func ruleWidthFromSource(c *eng.Ctx) {
+	const R = "R7.9-WIDTH-FROM-SOURCE"
+	c.Rule(R, "the observed code width of a CMap (actualByteWidth, which narrows the code length used by LookupString) is measured on the source-code strings of bfchar/bfrange entries, never on the destination string that closes each entry: destinations are UTF-16 and say nothing about how many bytes a code has", 1, 0)
+	var fontFuncs []*ssa.Function
+	for _, fn := range c.P.ModuleFuncs() {
+		if fn.Pkg != nil && eng.ShortPath(fn.Pkg.Pkg.Path()) == "font" {
+			fontFuncs = append(fontFuncs, fn)
+		}
+	}
+	n := 0
+	for _, fn := range fontFuncs {
+		eng.Instrs(fn, false, func(in ssa.Instruction) {
+			st, ok := in.(*ssa.Store)
+			if !ok {
+				return
+			}
+			fr, ok := eng.AsField(st.Addr)
+			if !ok || fr.Field != "actualByteWidth" {
+				return
+			}
+			if _, isConst := st.Val.(*ssa.Const); isConst {
+				return // initialisation
+			}
+			n++
+			var bad []string
+			measured := 0
+			for w := range eng.SliceInter(st.Val, throughBuiltins, fontFuncs) {
+				ld, ok := w.(*ssa.UnOp)
+				if !ok || ld.Op != token.MUL {
+					continue
+				}
+				ia, ok := ld.X.(*ssa.IndexAddr)
+				if !ok {
+					continue
+				}
+				if sl, ok := ia.X.Type().Underlying().(*types.Slice); !ok || !types.Identical(sl.Elem(), types.Typ[types.String]) {
+					continue
+				}
+				// position inside the entry: index = loop variable + k, entries are `stride` strings long
+				var loop *ssa.Phi
+				idx, ok := eng.IntPoly(ia.Index, func(v ssa.Value) (*eng.Poly, bool) {
+					if ph, ok := v.(*ssa.Phi); ok && isLoopCarried(ph) {
+						loop = ph
+						return eng.PSym("$i"), true
+					}
+					return nil, false
+				})
+				if !ok || loop == nil {
+					continue
+				}
+				k, isC := idx.Sub(eng.PSym("$i")).IsConst()
+				if !isC || !k.IsInt() {
+					continue
+				}
+				stride := int64(0)
+				for _, e := range loop.Edges {
+					if b, ok := e.(*ssa.BinOp); ok && b.Op == token.ADD && b.X == ssa.Value(loop) {
+						if s, ok := eng.ConstInt(b.Y); ok {
+							stride = s
+						}
+					}
+				}
+				if stride < 2 {
+					continue
+				}
+				measured++
+				if k.Num().Int64() == stride-1 {
+					bad = append(bad, fmt.Sprintf("string %d of %d of an entry (the destination) at %s", k.Num().Int64()+1, stride, c.P.Pos(ia.Pos())))
+				}
+			}
+			sort.Strings(bad)
+			key := fmt.Sprintf("%s#actualByteWidth%d", eng.FuncName(fn), n)
+			if measured == 0 {
+				c.Ok(R, key, st.Pos(), "not measured on entry strings here")
+				return
+			}
+			c.Check(len(bad) == 0, R, key, st.Pos(), "measured on source codes", "the observed code width is measured on "+strings.Join(bad, "; ")+": a CMap whose destinations are shorter or longer than its codes is decoded with the wrong code length")
+		})
+	}
+}
